@@ -1,4 +1,8 @@
 """C06 - algorithms return exactly what the standard specifies for every input."""
+import json
+import os
+
+import vlib
 from pipes import algo
 
 
@@ -16,4 +20,27 @@ def run(tier, rep):
         "reduce / transform_reduce are driven with commutative+associative reductions only (GENERALIZED_SUM)",
         "the TLA+ reading of the standard is calibrated against libstdc++ on the identical calls (zero deviations "
         "required); tetl's non-standard sorts are calibrated on std::sort / std::stable_sort",
+        "the model theorems (Algo.tla) are proven on a smaller bound than the replayed domain (see mc_constants)",
     ]
+
+
+def replay(path):
+    """Re-execute the recorded case on the current tree; exit 1 (VIOLATION line) if it still deviates."""
+    rec = json.load(open(path))
+    ev = rec["event"]
+    out = {}
+    algo.build_drivers(out)
+    keys = lambda s: "".join(str(c // 16) for c in s) or "-"   # noqa: E731
+    tp = os.path.join(vlib.workdir("traces"), "algo_replay.ndjson")
+    rc, err = vlib.run([out["bins"]["etl"], "one", ev["op"], ev["inst"], str(ev["c"]), str(ev["m"]), str(ev["v"]),
+                        keys(ev["a"]), keys(ev["b"])], tp, ok_codes=(0, 3))
+    if rc == 3:
+        raise vlib.ModelFailure("replay: %s/%s is not drivable on this tree" % (ev["op"], ev["inst"]))
+    tv = vlib.tlc_tv("AlgoTrace.tla", "AlgoTrace_thorough.cfg", tp, "algo_tv_replay", heap="1g")
+    devs = [d for d in tv["deviations"]]
+    if any(d["kind"].startswith("harness") for d in devs):
+        raise vlib.ModelFailure("replay: recorded case is outside the model's domain: " + json.dumps(ev)[:300])
+    for d in devs:
+        print("VIOLATION property=C06 replay=%s kind=%s got=%s expected=%s"
+              % (path, d["kind"], json.dumps({k: d["ev"][k] for k in ("oa", "ob", "od", "oc", "r", "p", "cz")}), json.dumps(d["expected"])))
+    return 1 if devs else 0
